@@ -871,7 +871,9 @@ class System:
                 self.usr[s].mkdir(self.roots[s])
             for path, cell in sorted(base):
                 # objects outside the sync root exist on both accounts (separate copies); inside: on `side` only
-                for sd in ((side,) if path[0] == ROOT else (0, 1)):
+                # side 2: the two accounts already hold identical trees when the engine first starts (nothing to transfer,
+                # and neither provider has anything to report in the first session)
+                for sd in ((side,) if (path[0] == ROOT and side != 2) else (0, 1)):
                     p = self.names.decode(sd, path)
                     if cell == DIR:
                         self.usr[sd].mkdir(p)
@@ -914,6 +916,13 @@ class System:
                 if "_cursor" in tag:
                     for eid in list(rows):
                         self.storage.inner.delete(tag, eid)
+            # a new process has freshly connected providers: with no stored cursor the event stream starts "now" (the harness
+            # re-uses the provider objects, whose in-memory cursor would otherwise still deliver what happened while down)
+            for prov in self.eng:
+                try:
+                    prov.current_cursor = prov.latest_cursor
+                except Exception:
+                    pass
         elif variant == "cursorRejected" and self.storage is not None:
             for tag, rows in list(self.storage.inner.read_all().items()):
                 if "_cursor" in tag:
